@@ -17,6 +17,7 @@
 import Jb.Proofs.Engine
 import Jb.Proofs.Total
 import Jb.Proofs.SynthTotal
+import Jb.Proofs.Supported
 
 set_option linter.unusedSectionVars false
 
@@ -148,5 +149,34 @@ theorem window_count_mismatch_panics [FromFile K] (fx : Fix) (big : K) (f : Cond
     Synth.synthesize fx big [Synth.Tiny.badVoice] (Synth.Tiny.weights (K := K)) [] f [l] []
       = .panic "mlpg_adjust/mod.rs:curr_stream[m]" :=
   Synth.Tiny.badVoice_panics fx big f l
+
+/-! ### from the bytes: the whole library, one theorem
+
+  `parseVoice` is the reader (C18: total, never panics), `supportedVoice` / `compatibleVoice` are *computable* checks
+  (`Jb/Model/Supported.lean`; the driver runs them on the voice files of every end-to-end case and records the answer in
+  the evidence classes), and the conclusion is C01 for every label sequence, setter history and weight assignment. -/
+
+/-- **C01 from the voice files.** If every voice of the set was accepted by the reader, passes the computable
+    `supportedVoice` check (2 or 3 streams, log-F0 of length 1, odd low-pass length, 1 ≤ windows listed ≤ windows
+    announced, for every state a tree whose rows are non-empty, have distinct ids, refer forward only and name PDF ids that
+    exist) and is compatible with the first, and there is one interpolation weight per voice, then synthesis of *any* labels
+    under *any* setter history returns exactly `frame_period × F` samples with every state ≥ 1 frame, `F ≥ labels × states`. -/
+theorem bytes_to_waveform_total [FromFile K] (fx : Fix) (big : K) (voices : List Hts.ParsedVoice) (v0 : Hts.ParsedVoice)
+    (hv0 : voices.head? = some v0) (iw : IW K)
+    (hall : ∀ v ∈ voices, (∃ bytes, Hts.parseVoice true bytes = .ok v) ∧ Hts.supportedVoice v = true ∧
+      Hts.compatibleVoice v0 v = true)
+    (hw : Synth.WeightsWF voices.length v0.global.nstreams iw) (ops : List (CondOp K)) (f : Condition K → Bool)
+    (labels : List (List Char)) (times : List (K × K))
+    (halign : (Synth.condOf (K := K) v0 ops).alignment = true → times.length = labels.length) :
+    ∃ (durs : List Nat) (w : List K), Synth.synthesize fx big voices iw ops f labels times = .ok w ∧
+      w.length = (Synth.condOf (K := K) v0 ops).fperiod * durs.sum ∧
+      labels.length * v0.global.nstates ≤ durs.sum ∧ (∀ d ∈ durs, 1 ≤ d) :=
+  Synth.bytes_synth_total fx big voices v0 hv0 iw hall hw ops f labels times halign
+
+/-- non-vacuity: a complete byte image the reader accepts (kernel evaluation) and that passes `supportedVoice` -/
+theorem supported_example_accepted :
+    Hts.parseVoice true Hts.SupportedEx.okBytes = .ok Hts.SupportedEx.okVoice ∧
+      Hts.supportedVoice Hts.SupportedEx.okVoice = true :=
+  ⟨Hts.SupportedEx.ok_accepted, Hts.SupportedEx.ok_supported⟩
 
 end Jb.C01
